@@ -46,3 +46,13 @@ Proof.
        m_count_data_blocks m_bytes_data_blocks m_bytes_index_block m_bytes_keys m_bytes_values].
   reflexivity.
 Qed.
+
+Lemma metadata_write_len m : len (metadata_write m) = 512.
+Proof.
+  unfold metadata_write, META_WRITE_ORDER, META_WRITE_MAGIC, MTBL_METADATA_SIZE.
+  cbn [map concat]. rewrite app_nil_r.
+  set (fields := fixed_encode64 (meta_field m 0) ++ _).
+  assert (Hlen : len fields = 72) by (subst fields; rewrite !len_app, !len_fixed64; reflexivity).
+  rewrite Hlen. change (512 - 72 - 4) with 436.
+  rewrite !len_app, Hlen, len_repeat, len_fixed32. reflexivity.
+Qed.
